@@ -23,7 +23,7 @@ RULE = ('(a) vsched harness (see C17): 2-6 threads on one shared memory (min 1, 
         'while 1-3 others store / load / fill in the first page and in the newest page memory.size reports (real threads; ThreadSanitizer, AddressSanitizer and optimised '
         'builds): no report, every store read back, grow results form one chain, final size = 1 + successful deltas. Thread creation '
         'faults: threads started through wasi thread-spawn with every n-th pthread_create failing - the shared memory descriptor '
-        'stays as it was (ASan / TSan builds).')
+        'stays as it was (ASan / TSan builds). A third of the ThreadSanitizer runs use a module translated with -f 1 (every function compiled in a C file of its own).')
 ASSUME = ['linearization point = acquisition of the memory mutex, the mechanism the property names', 'schedules are sampled']
 
 
